@@ -6,7 +6,9 @@
 use crate::runner::{Ctx, PropDyn};
 
 pub mod c01;
+pub mod c02;
 pub mod c03;
+pub mod c04;
 pub mod c05;
 pub mod c06;
 pub mod c07;
@@ -37,10 +39,22 @@ pub fn all() -> Vec<Check> {
             sweeps: Some(c01::sweeps),
         },
         Check {
+            id: "C02",
+            props: c02::props,
+            describe: c02::describe,
+            sweeps: None,
+        },
+        Check {
             id: "C03",
             props: c03::props,
             describe: c03::describe,
             sweeps: Some(c03::sweeps),
+        },
+        Check {
+            id: "C04",
+            props: c04::props,
+            describe: c04::describe,
+            sweeps: None,
         },
         Check {
             id: "C05",
